@@ -343,10 +343,10 @@ Import ListNotations.
 Open Scope string_scope.
 Open Scope list_scope.
 {imports}
-Definition cases : list (nat * ({ty})) := [
+Definition cases : list (N * ({ty})) := [
 {body}
 ].
-Definition bad (f : ({ty}) -> bool) : list nat :=
+Definition bad (f : ({ty}) -> bool) : list N :=
   map fst (filter (fun c => negb (f (snd c))) cases).
 {evals}
 """
@@ -369,7 +369,7 @@ def run_case_files(prop: str, ty: str, imports: str, preds: dict[str, str],
     files = []
     labels = list(preds)
     for k in range(0, len(cases), per_file):
-        body = ";\n".join(f"({i}%nat, {cases[i]})" for i in range(k, min(len(cases), k + per_file)))
+        body = ";\n".join(f"({i}%N, {cases[i]})" for i in range(k, min(len(cases), k + per_file)))
         evals = "\n".join(
             f'Definition r_{j} := bad ({preds[l]}).\nEval vm_compute in r_{j}.' for j, l in enumerate(labels))
         txt = CASE_HEADER.format(imports=imports + "\n" + extra_defs, ty=ty, body=body, evals=evals)
@@ -380,6 +380,10 @@ def run_case_files(prop: str, ty: str, imports: str, preds: dict[str, str],
 
     def one(f: Path):
         p = coqc_file(f, timeout=timeout)
+        if p.returncode != 0 and not (p.stdout + p.stderr).strip():
+            # killed without a Coq message (out of memory on an oversubscribed machine): one retry
+            time.sleep(5)
+            p = coqc_file(f, timeout=timeout)
         if p.returncode != 0:
             raise CheckFailure(f"case file {f} failed to compile:\n{(p.stdout + p.stderr)[-3000:]}")
         parts = re.split(r"^\s*=\s", p.stdout, flags=re.M)[1:]
